@@ -78,6 +78,13 @@ def builtin(lib, ex, name, args, kw, st, node):
             ok.heap_set(g, "selector_kind", VStr(code))
             outs.append((VDyn(tag=z3.IntVal(V.T_GEN), num=z3.RealVal(0), s=z3.IntVal(0), oid=g.t), ok))
         return outs
+    if name == "getattr" and len(node.args) == 2 and isinstance(node.args[1], ast.JoinedStr):
+        # getattr(node, f"{edge_type}_edges") in utils.py
+        parts = node.args[1].values
+        if len(parts) == 2 and isinstance(parts[1], ast.Constant) and parts[1].value == "_edges":
+            s = st.fork()
+            return [(lib.edges_of(ex, s, args[0]), s)]
+        raise Unsupported("getattr with a computed name (line %d)" % node.lineno)
     if name == "range":
         if len(args) == 1:
             n = V.as_num(args[0]).t
@@ -439,9 +446,6 @@ def install_more(lib):
         ]
     C["Machine"]["update_final_state_time"] = FnContract(
         "update_final_state_time", [("simulation_end_time", ("num", "real"), None)], pre=mfin_pre, post=mfin_post,
-        excs=[ExcCase("TypeError", lambda c: c.old.f["stats.last_state_change_time"].isnone,
-                      "finalised-before-the-first-state-change", unchanged=True, props=("C17", "C20"))],
-        normal_requires=lambda c: z3.Not(c.old.f["stats.last_state_change_time"].isnone),
         modifies=tuple(TT + k for k in MIRROR) + tuple(MIRROR.values()) + (
             "stats.last_state_change_time", "state_rep", "time_per_work_occupancy", "num_workers",
             "time_last_occupancy_change", "per_thread_total_time_in_blocked_state",
